@@ -26,6 +26,9 @@ pub struct Case {
     pub flavor: u8,
     pub long_headers: bool,
     pub binary_true: u8,
+    /// compact container headers announce bool as 2 (the specification's BOOL) instead of 1
+    #[serde(default)]
+    pub bool_elem2: bool,
 }
 
 impl Shrink for Case {
@@ -56,6 +59,9 @@ impl Shrink for Case {
         if self.long_headers || self.binary_true != 1 || self.flavor != 0 {
             out.push(Case { long_headers: false, binary_true: 1, flavor: 0, ..self.clone() });
         }
+        if self.bool_elem2 {
+            out.push(Case { bool_elem2: false, ..self.clone() });
+        }
         out
     }
 }
@@ -70,9 +76,10 @@ pub fn arb_case() -> BoxedStrategy<Case> {
                 any::<u8>(),
                 any::<bool>(),
                 prop_oneof![Just(1u8), 1u8..=255],
+                any::<bool>(),
             )
         })
-        .prop_map(|(item, utf8, flavor, long_headers, binary_true)| Case { item, utf8, flavor, long_headers, binary_true })
+        .prop_map(|(item, utf8, flavor, long_headers, binary_true, bool_elem2)| Case { item, utf8, flavor, long_headers, binary_true, bool_elem2 })
         .boxed()
 }
 
@@ -120,7 +127,7 @@ pub fn check_case(c: &Case) -> PResult {
             Err(e) => return Err(Fail::new(&format!("ref-rejects-{:?}", pk), format!("{:?}: reference decoder rejects pilota's bytes: {}\n value {:?}\n bytes {}", pk, e, c.item.val(), vcore::tval::hex(&out.bytes[..out.bytes.len().min(64)])))),
         }
         // B) reference -> pilota, in every spec-legal alternative form
-        let variant = Variant { long_field_headers: c.long_headers, binary_true: c.binary_true };
+        let variant = Variant { long_field_headers: c.long_headers, binary_true: c.binary_true, bool_elem_code: if c.bool_elem2 { 2 } else { 1 } };
         let bytes = ref_encode_item(proto, variant, &c.item);
         let ro = ReadOpts { flavor: c.flavor, utf8: c.utf8, max_depth: 200 };
         let rd = match catch(|| read_items(pk, &bytes, &[want], ro)) {
@@ -336,7 +343,7 @@ fn exhaustive_small_ints(rec: &std::cell::RefCell<vcore::evidence::Recorder>) ->
         vals.push(TVal::Map(TT::I8, TT::Bool, vec![(TVal::I8(1), TVal::Bool(true)); n]));
     }
     for v in vals {
-        let c = Case { item: Item::Val(v.clone()), utf8: true, flavor: 0, long_headers: false, binary_true: 1 };
+        let c = Case { item: Item::Val(v.clone()), utf8: true, flavor: 0, long_headers: false, binary_true: 1, bool_elem2: false };
         {
             let mut r = rec.borrow_mut();
             r.case(fp(&c), true, || json!(format!("{:?}", v)));
@@ -364,6 +371,7 @@ fn exhaustive_small_ints(rec: &std::cell::RefCell<vcore::evidence::Recorder>) ->
                     flavor: 0,
                     long_headers: false,
                     binary_true: 1,
+                    bool_elem2: false,
                 };
                 {
                     let mut r = rec.borrow_mut();
